@@ -23,7 +23,10 @@ use graphql_lang_types::{
 };
 use prelude::Postfix;
 
-use super::{description::parse_optional_description, peekable_lexer::PeekableLexer};
+use super::{
+    description::{clean_block_string_literal, parse_optional_description},
+    peekable_lexer::PeekableLexer,
+};
 
 pub fn parse_schema(
     source: &str,
@@ -249,7 +252,7 @@ fn parse_directive_definition(
     tokens: &mut PeekableLexer,
     description: Option<WithEmbeddedLocation<DescriptionValue>>,
 ) -> DiagnosticResult<GraphQLDirectiveDefinition> {
-    let _at = tokens.parse_token_of_kind(TokenKind::At);
+    let _at = tokens.parse_token_of_kind(TokenKind::At)?;
     let name = tokens.parse_string_key_type(TokenKind::Identifier)?;
 
     let arguments = parse_optional_enclosed_items(
@@ -389,9 +392,12 @@ fn parse_union_definition(
 
     let directives = parse_constant_directives(tokens)?;
 
-    let _equal = tokens.parse_token_of_kind(TokenKind::Equals)?;
-
-    let union_member_types = parse_union_member_types(tokens)?;
+    // UnionMemberTypes is optional: `union Foo` and `union Foo @bar` are valid definitions
+    let union_member_types = if tokens.parse_token_of_kind(TokenKind::Equals).is_ok() {
+        parse_union_member_types(tokens)?
+    } else {
+        vec![]
+    };
 
     GraphQLUnionTypeDefinition {
         description,
@@ -665,6 +671,18 @@ fn parse_constant_value(
                     without_quotes.map(GraphQLConstantValue::String)
                 },
             )
+        })?;
+
+        to_control_flow(|| {
+            tokens
+                .parse_source_of_kind(TokenKind::BlockStringLiteral)
+                .map(|with_quotes| {
+                    with_quotes.map(|source| {
+                        GraphQLConstantValue::String(
+                            clean_block_string_literal(source).intern().into(),
+                        )
+                    })
+                })
         })?;
 
         to_control_flow(|| {
